@@ -104,6 +104,7 @@ func init() {
 		// database pools, built once: for every set of labels forced present, the small enumerated
 		// databases followed by seeded random ones
 		pools := map[string][]*lflow.DB{}
+		narrow := map[string]int{}
 		forceOf := func(key string) map[string]bool {
 			f := map[string]bool{}
 			for _, r := range key {
@@ -131,6 +132,12 @@ func init() {
 			}
 			for i := 0; i < n; i++ {
 				add(lflow.RandDB(prng, forceOf(key)))
+			}
+			narrow[key] = len(pool)
+			// wide databases last: up to 5 series per metric and a label d no query names (verdicts only,
+			// the specification's semantics is bound on the narrow ones)
+			for i := 0; i < n/2; i++ {
+				add(lflow.WideDB(prng, forceOf(key)))
 			}
 			pools[key] = pool
 		}
@@ -199,8 +206,9 @@ func init() {
 			for i := range cs.DBs {
 				concAt[i] = true
 			}
-			for len(concAt) < nConc+len(cs.DBs) && len(concAt) < len(dbs) {
-				concAt[rng.Intn(len(dbs))] = true
+			nBind := len(cs.DBs) + narrow[""]
+			for len(concAt) < nConc+len(cs.DBs) && len(concAt) < nBind {
+				concAt[rng.Intn(nBind)] = true
 			}
 			for i, mdb := range dbs {
 				db := mdb.Src
